@@ -662,16 +662,16 @@ fn parse_location_string(s: String, location_ref: String, modifier_value: &str) 
     Err(())
 }
 
-pub fn is_shebang(path: &PathBuf) -> bool {
-    if let Ok(file) = File::open(path) {
-        let mut buf_reader = BufReader::new(file);
-        let mut buf = vec![0; 2];
-        if buf_reader.read_exact(&mut buf).is_ok() {
-            return buf[0] == 0x23 && buf[1] == 0x21;
-        }
+/// `None` when the file cannot be opened: what it begins with is not known then
+pub fn is_shebang(path: &PathBuf) -> Option<bool> {
+    let file = File::open(path).ok()?;
+    let mut buf_reader = BufReader::new(file);
+    let mut buf = vec![0; 2];
+    if buf_reader.read_exact(&mut buf).is_ok() {
+        return Some(buf[0] == 0x23 && buf[1] == 0x21);
     }
 
-    false
+    Some(false)
 }
 
 #[allow(unused)]
